@@ -55,11 +55,21 @@ Proof.
 Qed.
 
 (** * One round *)
+Local Notation ubs := (f0_ubs fb).
+Local Notation srcs := (f0_srcs fb).
+Local Notation combs := (f0_combs fb).
+
+(** a round over all instances of an unweighted crossing: the source indices are listed by instance *)
+Definition full (tc : nat) : bool := (tc =? q) && f0_unw fb.
+
+(** the number of admitted source combinations per position of the second component *)
+Definition src_shapes (tc : nat) (c0 : Z) : list Z :=
+  if full tc then combs else map (fun p => nth (Z.to_nat p) combs 0%Z) (perm_of tc c0).
 
 Definition comp_ok (tc : nat) (cp : comp) : Prop :=
   let '(c0, c1, c2) := cp in
   (0 <= c0 < f0_N fb tc)%Z /\ p_U cws tc c0 <> None /\
-  c1 = zeros tc /\
+  Forall2 (fun s x => (0 <= x < s)%Z) (src_shapes tc c0) c1 /\
   Forall2 (fun f idx => (0 <= idx < Z.of_nat (length (f0_L fb f)) ^ Z.of_nat tc)%Z) ubi c2.
 
 (** level number [d] (an index into the admitted levels) of factor [g] *)
@@ -69,25 +79,26 @@ Definition lv_of (g : nat) (d : Z) : nat := nth (Z.to_nat d) (f0_L fb g) 0.
 Definition ind_rows (tc : nat) (c2 : list Z) : list (nat * list nat) :=
   map (fun fi => (fst fi, map (lv_of (fst fi)) (combo_of tc (length (f0_L fb (fst fi))) (snd fi)))) (combine ubi c2).
 
-Definition spec_tv (perm : list Z) (rows : list (nat * list nat)) (t : nat) : asg :=
-  nth (Z.to_nat (nth t perm 0%Z)) inst [] ++ map (fun fr => (fst fr, nth t (snd fr) 0)) rows.
+(** where the source index of trial [t] stands in the second component *)
+Definition src_pos (tc : nat) (perm : list Z) (t : nat) : nat :=
+  if full tc then Z.to_nat (nth t perm 0%Z) else t.
+
+(** the number (in [srcs]) of the source combination of trial [t] *)
+Definition src_num (tc : nat) (perm c1 : list Z) (t : nat) : nat :=
+  nth (Z.to_nat (nth (src_pos tc perm t) c1 0%Z)) (f0_valid fb (nth (Z.to_nat (nth t perm 0%Z)) inst [])) 0.
+
+Definition src_at (tc : nat) (perm c1 : list Z) (t : nat) : asg := nth (src_num tc perm c1 t) srcs [].
+
+Definition spec_tv (perm : list Z) (src : nat -> asg) (rows : list (nat * list nat)) (t : nat) : asg :=
+  nth (Z.to_nat (nth t perm 0%Z)) inst [] ++ src t ++ map (fun fr => (fst fr, nth t (snd fr) 0)) rows.
 
 Definition spec_tvs (tc : nat) (cp : comp) : list asg :=
-  let '(c0, _, c2) := cp in
-  map (spec_tv (perm_of tc c0) (ind_rows tc c2)) (seq 0 tc).
+  let '(c0, c1, c2) := cp in
+  map (spec_tv (perm_of tc c0) (src_at tc (perm_of tc c0) c1) (ind_rows tc c2)) (seq 0 tc).
 
-
-
-
-
-
-
-
-
-
-(** * The factors: crossed ones and independent ones *)
+(** * The factors: crossed ones, source ones and independent ones *)
 Local Notation prod := (f0_cprod fb).
-Local Notation K := (c ++ ubi).
+Local Notation K := (c ++ ubs ++ ubi).
 
 Lemma inst_eq : inst = map (fun ls => combine c ls) prod.
 Proof. reflexivity. Qed.
@@ -105,28 +116,38 @@ Proof.
   apply (f0_cprod_in_prod fb HF). apply nth_In. exact Hj.
 Qed.
 
-Lemma ubi_In g : In g ubi <-> In g (fl_act fb) /\ ~ In g c.
+Lemma ub_In g : In g (f0_ub fb) <-> In g (fl_act fb) /\ ~ In g c.
+Proof. unfold f0_ub. rewrite filter_In. rewrite negb_true_iff, memb_false. reflexivity. Qed.
+
+Lemma ubi_In g : In g ubi <-> In g (fl_act fb) /\ ~ In g c /\ ~ In g (f0_sf fb).
 Proof.
-  unfold f0_ubi. rewrite filter_In. rewrite negb_true_iff, memb_false. reflexivity.
+  unfold f0_ubi. rewrite filter_In, ub_In. rewrite negb_true_iff, memb_false. tauto.
+Qed.
+
+Lemma ubs_In g : In g ubs <-> In g (fl_act fb) /\ ~ In g c /\ In g (f0_sf fb).
+Proof.
+  unfold f0_ubs. rewrite filter_In, ub_In. rewrite memb_In. tauto.
 Qed.
 
 Lemma ubi_nodup : NoDup ubi.
-Proof. unfold f0_ubi. apply NoDup_filter. apply (act_nodup fb HF). Qed.
+Proof. unfold f0_ubi, f0_ub. apply NoDup_filter. apply NoDup_filter. apply (act_nodup fb HF). Qed.
 
 (** the factors of a candidate are those of [act_design] *)
 Lemma K_In g : In g K <-> In g (fl_act fb).
 Proof.
-  rewrite in_app_iff, ubi_In. split.
-  - intros [H | [H _]]; [apply (f0_cact_main fb HF); exact H | exact H].
-  - intros H. destruct (in_dec Nat.eq_dec g c); [left; assumption | right; split; assumption].
+  rewrite !in_app_iff, ubi_In, ubs_In. split.
+  - intros [H | [[H _] | [H _]]]; [apply (f0_cact_main fb HF); exact H | exact H | exact H].
+  - intros H. destruct (in_dec Nat.eq_dec g c); [left; assumption | right].
+    destruct (in_dec Nat.eq_dec g (f0_sf fb)); [left | right]; repeat split; assumption.
 Qed.
 
 Lemma K_nodup : NoDup K.
 Proof.
-  apply NoDup_app_intro; [apply (f0_nodup fb (f0_unpack fb HF)) | apply ubi_nodup|].
-  intros g Hg Hu. apply ubi_In in Hu. destruct Hu as [_ Hu]. contradiction.
+  apply NoDup_app_intro; [apply (f0_nodup fb (f0_unpack fb HF)) | |].
+  - apply NoDup_app_intro; [apply (f0_ubs_nodup fb HF) | apply ubi_nodup|].
+    intros g Hg Hu. apply ubs_In in Hg. apply ubi_In in Hu. tauto.
+  - intros g Hg Hu. apply in_app_iff in Hu. rewrite ubs_In, ubi_In in Hu. tauto.
 Qed.
-
 
 Lemma ind_rows_keys tc c2 : length c2 = length ubi -> map fst (ind_rows tc c2) = ubi.
 Proof.
@@ -134,17 +155,80 @@ Proof.
   rewrite <- (map_fst_combine ubi c2) at 2 by lia. reflexivity.
 Qed.
 
-Lemma spec_tv_keys tc cp t : tc <= C -> comp_ok tc cp -> t < tc ->
-  let '(c0, _, c2) := cp in
-  map fst (spec_tv (perm_of tc c0) (ind_rows tc c2) t) = K.
+Lemma combs_length : length combs = q.
+Proof. unfold f0_combs. rewrite map_length. apply (f0_vs_length fb HF). Qed.
+
+Lemma combs_nth p : p < q -> nth p combs 0%Z = Z.of_nat (length (f0_valid fb (nth p inst []))).
 Proof.
-  intros Hle Hok Ht. destruct cp as [[c0 c1] c2]. destruct Hok as (Hc0 & Hdef & _ & Hc2).
+  intros Hp. unfold f0_combs, f0_vs. rewrite map_map.
+  rewrite (nth_indep _ 0%Z (Z.of_nat (length (f0_valid fb [])))) by (rewrite map_length, (f0_instances_length fb HF); exact Hp).
+  apply (map_nth (fun ci => Z.of_nat (length (f0_valid fb ci)))).
+Qed.
+
+(** the source index of a trial is an index into the admitted source combinations of its instance *)
+Lemma src_idx_ok tc c0 c1 t : tc <= C -> (0 <= c0 < f0_N fb tc)%Z -> p_U cws tc c0 <> None ->
+  Forall2 (fun s x => (0 <= x < s)%Z) (src_shapes tc c0) c1 -> t < tc ->
+  let perm := perm_of tc c0 in
+  let p := Z.to_nat (nth t perm 0%Z) in
+  p < q /\ src_pos tc perm t < length c1 /\
+  (0 <= nth (src_pos tc perm t) c1 0%Z < Z.of_nat (length (f0_valid fb (nth p inst []))))%Z.
+Proof.
+  intros Hle Hc0 Hdef Hc1 Ht perm p.
   destruct (perm_of_spec tc c0 Hle Hc0 Hdef) as (_ & Hpl & Hpb & _).
-  unfold spec_tv. rewrite map_app.
+  assert (Hp : p < q).
+  { pose proof (Forall_nth' _ _ t 0%Z Hpb ltac:(lia)) as H. cbv beta in H. unfold p, perm. lia. }
+  split; [exact Hp|]. pose proof (Forall2_length' _ _ _ Hc1) as Hlen.
+  unfold src_pos, src_shapes in *. fold perm in Hc1, Hlen. destruct (full tc).
+  - rewrite combs_length in Hlen. fold p. split; [lia|].
+    assert (Hp' : p < length combs) by (rewrite combs_length; exact Hp).
+    pose proof (Forall2_nth _ _ _ 0%Z 0%Z p Hc1 Hp') as H. cbv beta in H.
+    rewrite (combs_nth p Hp) in H. exact H.
+  - rewrite map_length in Hlen. fold perm in Hpl. split; [lia|].
+    assert (Ht' : t < length (map (fun p0 => nth (Z.to_nat p0) combs 0%Z) perm)) by (rewrite map_length; lia).
+    pose proof (Forall2_nth _ _ _ 0%Z 0%Z t Hc1 Ht') as H. cbv beta in H.
+    rewrite (nth_indep (map (fun p0 => nth (Z.to_nat p0) combs 0%Z) perm) 0%Z (nth (Z.to_nat 0%Z) combs 0%Z) Ht') in H.
+    rewrite (map_nth (fun p0 => nth (Z.to_nat p0) combs 0%Z)) in H. fold p in H.
+    rewrite (combs_nth p Hp) in H. exact H.
+Qed.
+
+Lemma valid_In ci j : In j (f0_valid fb ci) <-> j < length srcs /\ src_ok fb ci (nth j srcs []) = true.
+Proof. unfold f0_valid. rewrite filter_In, in_seq. split; intros [H1 H2]; (split; [lia | exact H2]). Qed.
+
+(** the source combination of a trial: admitted for the instance of the trial *)
+Lemma src_at_spec tc cp t : tc <= C -> comp_ok tc cp -> t < tc ->
+  let '(c0, c1, _) := cp in
+  let perm := perm_of tc c0 in
+  In (src_num tc perm c1 t) (f0_valid fb (nth (Z.to_nat (nth t perm 0%Z)) inst [])) /\
+  In (src_at tc perm c1 t) srcs.
+Proof.
+  intros Hle Hok Ht. destruct cp as [[c0 c1] c2]. destruct Hok as (Hc0 & Hdef & Hc1 & _). intros perm.
+  destruct (src_idx_ok tc c0 c1 t Hle Hc0 Hdef Hc1 Ht) as (Hp & Hpos & Hidx). fold perm in Hpos, Hidx.
+  assert (Hin : In (src_num tc perm c1 t) (f0_valid fb (nth (Z.to_nat (nth t perm 0%Z)) inst []))).
+  { unfold src_num. apply nth_In. lia. }
+  split; [exact Hin|]. apply valid_In in Hin. unfold src_at. apply nth_In. apply Hin.
+Qed.
+
+Lemma src_at_keys tc cp t : tc <= C -> comp_ok tc cp -> t < tc ->
+  let '(c0, c1, _) := cp in
+  exists ls, src_at tc (perm_of tc c0) c1 t = combine ubs ls /\ length ls = length ubs.
+Proof.
+  intros Hle Hok Ht. pose proof (src_at_spec tc cp t Hle Hok Ht) as H. destruct cp as [[c0 c1] c2].
+  destruct H as [_ H]. destruct (f0_src_shape fb HF _ H) as (ls & E & Hl & _). exists ls. split; assumption.
+Qed.
+
+Lemma spec_tv_keys tc cp t : tc <= C -> comp_ok tc cp -> t < tc ->
+  let '(c0, c1, c2) := cp in
+  map fst (spec_tv (perm_of tc c0) (src_at tc (perm_of tc c0) c1) (ind_rows tc c2) t) = K.
+Proof.
+  intros Hle Hok Ht. pose proof (src_at_keys tc cp t Hle Hok Ht) as Hsrc.
+  destruct cp as [[c0 c1] c2]. destruct Hsrc as (ls & Es & Hls). destruct Hok as (Hc0 & Hdef & _ & Hc2).
+  destruct (perm_of_spec tc c0 Hle Hc0 Hdef) as (_ & Hpl & Hpb & _).
+  unfold spec_tv. rewrite !map_app.
   assert (Hj : Z.to_nat (nth t (perm_of tc c0) 0%Z) < q).
   { pose proof (Forall_nth' _ _ t 0%Z Hpb ltac:(lia)) as H. cbv beta in H. lia. }
   rewrite nth_inst by exact Hj. rewrite map_fst_combine by (rewrite prod_elem_length by exact Hj; reflexivity).
-  f_equal. rewrite map_map. cbn [fst]. change (map (fun x : nat * list nat => fst x) (ind_rows tc c2)) with (map fst (ind_rows tc c2)).
+  f_equal. rewrite Es. rewrite map_fst_combine by (symmetry; exact Hls). f_equal.
+  rewrite map_map. cbn [fst]. change (map (fun x : nat * list nat => fst x) (ind_rows tc c2)) with (map fst (ind_rows tc c2)).
   apply ind_rows_keys. symmetry. eapply Forall2_length'. exact Hc2.
 Qed.
 
@@ -152,11 +236,10 @@ Qed.
 Definition crossed_level (perm : list Z) (i t : nat) : nat :=
   nth i (nth (Z.to_nat (nth t perm 0%Z)) prod []) 0.
 
-
 Lemma alookup_spec_tv_crossed tc cp t i g : tc <= C -> comp_ok tc cp -> t < tc ->
   nth_error c i = Some g ->
-  let '(c0, _, c2) := cp in
-  alookup (spec_tv (perm_of tc c0) (ind_rows tc c2) t) g = Some (crossed_level (perm_of tc c0) i t).
+  let '(c0, c1, c2) := cp in
+  alookup (spec_tv (perm_of tc c0) (src_at tc (perm_of tc c0) c1) (ind_rows tc c2) t) g = Some (crossed_level (perm_of tc c0) i t).
 Proof.
   intros Hle Hok Ht Hi. destruct cp as [[c0 c1] c2]. destruct Hok as (Hc0 & Hdef & _ & Hc2).
   destruct (perm_of_spec tc c0 Hle Hc0 Hdef) as (_ & Hpl & Hpb & _).
@@ -169,25 +252,48 @@ Proof.
   reflexivity.
 Qed.
 
+(** the level of the [j]-th source factor in trial [t] *)
+Definition src_level (tc : nat) (perm c1 : list Z) (j t : nat) : nat :=
+  match alookup (src_at tc perm c1 t) (nth j ubs 0) with Some l => l | None => 0 end.
 
+Lemma alookup_spec_tv_src tc cp t j g : tc <= C -> comp_ok tc cp -> t < tc ->
+  nth_error ubs j = Some g ->
+  let '(c0, c1, c2) := cp in
+  alookup (spec_tv (perm_of tc c0) (src_at tc (perm_of tc c0) c1) (ind_rows tc c2) t) g = Some (src_level tc (perm_of tc c0) c1 j t).
+Proof.
+  intros Hle Hok Ht Hj. pose proof (src_at_keys tc cp t Hle Hok Ht) as Hsrc.
+  destruct cp as [[c0 c1] c2]. destruct Hsrc as (ls & Es & Hls). destruct Hok as (Hc0 & Hdef & _ & Hc2).
+  destruct (perm_of_spec tc c0 Hle Hc0 Hdef) as (_ & Hpl & Hpb & _).
+  assert (Hjq : Z.to_nat (nth t (perm_of tc c0) 0%Z) < q).
+  { pose proof (Forall_nth' _ _ t 0%Z Hpb ltac:(lia)) as H. cbv beta in H. lia. }
+  assert (Hgu : In g ubs) by (eapply nth_error_In; exact Hj).
+  assert (Hgc : ~ In g c) by (apply ubs_In in Hgu; apply Hgu).
+  unfold spec_tv. rewrite alookup_app. rewrite nth_inst by exact Hjq.
+  rewrite alookup_combine_none by exact Hgc. rewrite alookup_app. unfold src_level.
+  rewrite (nth_error_nth _ _ 0 Hj). rewrite Es.
+  destruct (alookup_combine_in fb HF ubs ls g (f0_ubs_nodup fb HF) Hls Hgu) as [a Ha]. rewrite Ha. reflexivity.
+Qed.
 
 Definition ind_level (tc : nat) (c2 : list Z) (j t : nat) : nat :=
   lv_of (nth j ubi 0) (nth t (combo_of tc (length (f0_L fb (nth j ubi 0))) (nth j c2 0%Z)) 0%Z).
 
 Lemma alookup_spec_tv_ind tc cp t j g : tc <= C -> comp_ok tc cp -> t < tc ->
   nth_error ubi j = Some g ->
-  let '(c0, _, c2) := cp in
-  alookup (spec_tv (perm_of tc c0) (ind_rows tc c2) t) g = Some (ind_level tc c2 j t).
+  let '(c0, c1, c2) := cp in
+  alookup (spec_tv (perm_of tc c0) (src_at tc (perm_of tc c0) c1) (ind_rows tc c2) t) g = Some (ind_level tc c2 j t).
 Proof.
-  intros Hle Hok Ht Hj. destruct cp as [[c0 c1] c2]. destruct Hok as (Hc0 & Hdef & _ & Hc2).
+  intros Hle Hok Ht Hj. pose proof (src_at_keys tc cp t Hle Hok Ht) as Hsrc.
+  destruct cp as [[c0 c1] c2]. destruct Hsrc as (ls & Es & Hls). destruct Hok as (Hc0 & Hdef & _ & Hc2).
   destruct (perm_of_spec tc c0 Hle Hc0 Hdef) as (_ & Hpl & Hpb & _).
   assert (Hjq : Z.to_nat (nth t (perm_of tc c0) 0%Z) < q).
   { pose proof (Forall_nth' _ _ t 0%Z Hpb ltac:(lia)) as H. cbv beta in H. lia. }
   pose proof (Forall2_length' _ _ _ Hc2) as Hlen.
   assert (Hgu : In g ubi) by (eapply nth_error_In; exact Hj).
   assert (Hgc : ~ In g c) by (apply ubi_In in Hgu; apply Hgu).
+  assert (Hgs : ~ In g ubs) by (apply ubi_In in Hgu; rewrite ubs_In; tauto).
   unfold spec_tv. rewrite alookup_app. rewrite nth_inst by exact Hjq.
-  rewrite alookup_combine_none by exact Hgc. rewrite alookup_rows.
+  rewrite alookup_combine_none by exact Hgc. rewrite alookup_app, Es. rewrite alookup_combine_none by exact Hgs.
+  rewrite alookup_rows.
   assert (Hjl : j < length ubi) by (apply nth_error_Some; congruence).
   assert (Hrow : nth_error (ind_rows tc c2) j =
                  Some (g, map (lv_of g) (combo_of tc (length (f0_L fb g)) (nth j c2 0%Z)))).
@@ -209,14 +315,20 @@ Qed.
 (** * Rows of a round *)
 Definition round_row (tc : nat) (cp : comp) (g : nat) : list (option nat) := cells_for (spec_tvs tc cp) g.
 
-
-
 Lemma round_row_crossed tc cp i g : tc <= C -> comp_ok tc cp -> nth_error c i = Some g ->
   round_row tc cp g = map (fun t => Some (crossed_level (perm_of tc (fst (fst cp))) i t)) (seq 0 tc).
 Proof.
   intros Hle Hok Hi. unfold round_row. destruct cp as [[c0 c1] c2]. cbn [fst spec_tvs].
   apply cells_for_map. intros t Ht. apply in_seq in Ht.
   apply (alookup_spec_tv_crossed tc (c0, c1, c2) t i g Hle Hok ltac:(lia) Hi).
+Qed.
+
+Lemma round_row_src tc cp j g : tc <= C -> comp_ok tc cp -> nth_error ubs j = Some g ->
+  round_row tc cp g = map (fun t => Some (src_level tc (perm_of tc (fst (fst cp))) (snd (fst cp)) j t)) (seq 0 tc).
+Proof.
+  intros Hle Hok Hj. unfold round_row. destruct cp as [[c0 c1] c2]. cbn [fst snd spec_tvs].
+  apply cells_for_map. intros t Ht. apply in_seq in Ht.
+  apply (alookup_spec_tv_src tc (c0, c1, c2) t j g Hle Hok ltac:(lia) Hj).
 Qed.
 
 Lemma round_row_ind tc cp j g : tc <= C -> comp_ok tc cp -> nth_error ubi j = Some g ->
@@ -237,8 +349,10 @@ Qed.
 
 Lemma round_row_length tc cp g : tc <= C -> comp_ok tc cp -> In g K -> length (round_row tc cp g) = tc.
 Proof.
-  intros Hle Hok Hg. apply in_app_iff in Hg. destruct Hg as [Hg | Hg].
+  intros Hle Hok Hg. apply in_app_iff in Hg. destruct Hg as [Hg | Hg]; [|apply in_app_iff in Hg; destruct Hg as [Hg | Hg]].
   - apply In_nth_error in Hg. destruct Hg as [i Hi]. rewrite (round_row_crossed tc cp i g Hle Hok Hi).
+    rewrite map_length, seq_length. reflexivity.
+  - apply In_nth_error in Hg. destruct Hg as [j Hj]. rewrite (round_row_src tc cp j g Hle Hok Hj).
     rewrite map_length, seq_length. reflexivity.
   - apply In_nth_error in Hg. destruct Hg as [j Hj]. rewrite (round_row_ind tc cp j g Hle Hok Hj).
     rewrite map_length, seq_length. reflexivity.
@@ -334,12 +448,14 @@ Proof.
   destruct (f0_unw fb) eqn:Hu.
   - destruct (compute_jth_permutation_prefix (Z.of_nat q) (Z.of_nat tc) j) as [p'|e]; [|discriminate].
     cbn [lift] in Hrun. inversion Hrun. reflexivity.
-  - unfold f0_moc in Hrun. rewrite Hu in Hrun. cbn [compute_jth_prefix_of_permutations_with_copies] in Hrun.
+  - assert (Emoc : f0_moc fb = Counters cws) by (unfold f0_moc; rewrite Hu; reflexivity).
+    pose proof (f0_params_ok fb HF) as Hpar. unfold f0_memo_ok in Hm. rewrite Emoc in Hrun, Hm, Hpar.
+    cbn [compute_jth_prefix_of_permutations_with_copies] in Hrun.
     destruct (k_prefixes_of_permutations_with_copies (Z.of_nat q) (Counters cws) (Z.of_nat tc) j memo) as [[v memo']|e] eqn:Ek;
       [|discriminate]. cbn [lift rbind] in Hrun.
     rewrite (f0_N_w fb HF tc Hu) in Hj.
     destruct (StackProofs.k_prefixes_unrank_refines (Z.of_nat q) (Counters cws) (Z.of_nat tc) memo j v memo'
-                (f0_params_ok fb HF) ltac:(lia) (Hm Hu) Hj Ek) as [(wd & Hv & Hun) _].
+                Hpar ltac:(lia) Hm Hj Ek) as [(wd & Hv & Hun) _].
     subst v. cbn [kperm fst] in Hrun. inversion Hrun; subst p. exact Hun.
 Qed.
 
@@ -369,10 +485,12 @@ Lemma perm_def_total tc memo j : tc <= C -> f0_memo_ok fb memo -> (0 <= j < f0_N
 Proof.
   intros Hle Hm Hj. destruct (f0_unw fb) eqn:Hu; [apply (perm_def_unw tc memo j Hu Hle Hj)|].
   unfold perm_def, jth_permutation_indices. cbn [eb_m eb_unweighted eb_moc f0_base Z.eqb Pos.eqb andb].
-  rewrite Hu. unfold f0_moc. rewrite Hu. cbn [compute_jth_prefix_of_permutations_with_copies].
+  rewrite Hu. assert (Emoc : f0_moc fb = Counters cws) by (unfold f0_moc; rewrite Hu; reflexivity).
+  pose proof (f0_params_ok fb HF) as Hpar. unfold f0_memo_ok in Hm. rewrite Emoc in Hm, Hpar. rewrite Emoc.
+  cbn [compute_jth_prefix_of_permutations_with_copies].
   rewrite (f0_N_w fb HF tc Hu) in Hj.
   destruct (TotalProofs.k_prefixes_unrank_total (Z.of_nat q) (Counters cws) (Z.of_nat tc) memo j
-              (f0_params_ok fb HF) ltac:(lia) (Hm Hu) Hj) as (wd & memo' & Hrun & Hun & _).
+              Hpar ltac:(lia) Hm Hj) as (wd & memo' & Hrun & Hun & _).
   rewrite Hrun. cbn [lift rbind kperm fst]. f_equal. unfold perm_of, p_U. fold (f0_unw fb). rewrite Hu.
   cbn [StackProofs.cs_of] in Hun. rewrite Hun. reflexivity.
 Qed.
@@ -390,6 +508,7 @@ Section F0M.
 Variable fb : flat.
 Hypothesis HF : frag2 fb = true.
 Variables m lm : memo_t.
+Variables cn lcn : Z.
 Hypothesis HM : memos_ok fb m lm.
 
 Local Notation Hq := (f0_q_pos fb HF).
@@ -400,12 +519,13 @@ Local Notation C := (f0_C fb).
 Local Notation cws := (f0_cws fb).
 Local Notation inst := (f0_instances fb).
 Local Notation ubi := (f0_ubi fb).
-Local Notation en := (f0_enum fb m lm).
-Local Notation K := (the_crossing fb ++ f0_ubi fb).
+Local Notation en := (f0_enum fb m lm cn lcn).
+Local Notation K := (the_crossing fb ++ f0_ubs fb ++ f0_ubi fb).
+Local Notation srcs := (f0_srcs fb).
 
-Lemma full_round_f0 tc : full_round en (Z.of_nat tc) = (tc =? q) && f0_unw fb.
+Lemma full_round_f0 tc : full_round en (Z.of_nat tc) = full fb tc.
 Proof.
-  unfold full_round, q_instances. cbn [en_base f0_enum eb_instances f0_base eb_unweighted].
+  unfold full_round, q_instances, full. cbn [en_base f0_enum eb_instances f0_base eb_unweighted].
   rewrite f0_instances_length by exact HF. f_equal.
   destruct (tc =? q) eqn:E.
   - apply Nat.eqb_eq in E. subst. apply Z.eqb_refl.
@@ -426,30 +546,38 @@ Proof.
   { apply rmap_ok_map. intros p Hpin. rewrite Forall_forall in Hpb. specialize (Hpb p Hpin).
     apply zindex_some; [lia|]. apply nth_error_nth_ok. rewrite f0_instances_length by exact HF. lia. }
   rewrite Hperm. cbn [rbind].
-  (* the source combinations: always the empty one *)
+  (* the source combinations *)
   assert (Hsrc : rmap (fun ip : Z * Z => let '(i, p) := ip in
                          cp <-- zindex c1 (if full_round en (Z.of_nat tc) then p else i) ;;;
                          vp <-- zindex (en_valid en) p ;;;
                          si <-- zindex vp cp ;;;
                          of_opt IndexError (nth_error (eb_sources (f0_base fb)) si))
-                      (enumerate_from 0 perm) = ROk (map (fun _ => ([] : asg)) (enumerate_from 0 perm))).
+                      (enumerate_from 0 perm) =
+                 ROk (map (fun ip : Z * Z => src_at fb tc perm c1 (Z.to_nat (fst ip))) (enumerate_from 0 perm))).
   { apply rmap_ok_map. intros [i p] Hip. apply enumerate_from_In in Hip.
     destruct Hip as (k & Hk & Hi & Hn). cbn [fst snd] in Hi, Hn.
     assert (Hpin : In p perm) by (eapply nth_error_In; exact Hn).
     rewrite Forall_forall in Hpb. specialize (Hpb p Hpin).
-    rewrite full_round_f0. subst c1.
-    assert (Hz : zindex (zeros tc) (if (tc =? q) && f0_unw fb then p else i) = ROk 0%Z).
-    { apply zindex_some; [destruct ((tc =? q) && f0_unw fb); lia|].
-      rewrite nth_error_nth_ok with (d := 0%Z); [rewrite nth_zeros; reflexivity|].
-      rewrite zeros_length. destruct (tc =? q) eqn:E; cbn [andb].
-      - apply Nat.eqb_eq in E. destruct (f0_unw fb); [lia | subst i; rewrite Hpl in Hk; lia].
-      - subst i. rewrite Hpl in Hk. lia. }
+    rewrite full_round_f0. rewrite Hpl in Hk.
+    destruct (src_idx_ok fb HF Hq tc c0 c1 k Hle Hc0 HU Hc1 Hk) as (Hp & Hpos & Hidx). fold perm in Hp, Hpos, Hidx.
+    assert (Enp : nth k perm 0%Z = p) by (apply nth_error_nth; exact Hn). rewrite Enp in Hp, Hidx.
+    assert (Ei : Z.to_nat i = k) by lia.
+    assert (Epos : Z.to_nat (if full fb tc then p else i) = src_pos fb tc perm k).
+    { unfold src_pos. rewrite Enp. destruct (full fb tc); [reflexivity | exact Ei]. }
+    assert (Hz : zindex c1 (if full fb tc then p else i) = ROk (nth (src_pos fb tc perm k) c1 0%Z)).
+    { apply zindex_some; [destruct (full fb tc); lia|]. rewrite Epos. apply nth_error_nth_ok. exact Hpos. }
     rewrite Hz. cbn [rbind]. cbn [en_valid f0_enum].
-    assert (Hv : zindex (map (fun _ : asg => [0]) inst) p = ROk [0]).
-    { apply zindex_some; [lia|].
-      apply (map_nth_error (fun _ : asg => [0]) (Z.to_nat p) inst (d := nth (Z.to_nat p) inst [])).
-      apply nth_error_nth_ok. rewrite f0_instances_length by exact HF. lia. }
-    rewrite Hv. cbn [rbind]. reflexivity. }
+    assert (Hv : zindex (f0_vs fb) p = ROk (f0_valid fb (nth (Z.to_nat p) inst []))).
+    { apply zindex_some; [lia|]. unfold f0_vs.
+      apply (map_nth_error (f0_valid fb) (Z.to_nat p) inst (d := nth (Z.to_nat p) inst [])).
+      apply nth_error_nth_ok. rewrite f0_instances_length by exact HF. exact Hp. }
+    rewrite Hv. cbn [rbind].
+    rewrite (zindex_nth_ok (f0_valid fb (nth (Z.to_nat p) inst [])) _ Hidx). cbn [rbind eb_sources f0_base fst].
+    assert (Hin : In (nth (Z.to_nat (nth (src_pos fb tc perm k) c1 0%Z)) (f0_valid fb (nth (Z.to_nat p) inst [])) 0)
+                     (f0_valid fb (nth (Z.to_nat p) inst []))) by (apply nth_In; lia).
+    apply (valid_In fb HF Hq) in Hin. destruct Hin as [Hlt _].
+    rewrite nth_error_nth_ok with (d := ([] : asg)) by exact Hlt. cbn [of_opt].
+    rewrite Ei. unfold src_at, src_num. rewrite Enp. reflexivity. }
   rewrite Hsrc. cbn [rbind].
   (* the independent factors *)
   cbn [en_ind_levels f0_enum]. rewrite Nat2Z.id.
@@ -499,7 +627,7 @@ Proof.
   { rewrite nth_error_nth_ok with (d := (0%Z, 0%Z)).
     - rewrite enumerate_from_nth by lia. reflexivity.
     - rewrite enumerate_from_combine, combine_length, map_length, seq_length. lia. }
-  rewrite He. cbn [option_map of_opt rbind app]. reflexivity.
+  rewrite He. cbn [option_map of_opt rbind app fst]. rewrite Z.add_0_l, Nat2Z.id. reflexivity.
 Qed.
 
 Lemma decode_f0 k : key_ok fb k ->
